@@ -79,12 +79,19 @@ def run_probe(repo, build_dir, test_filter=None):
         shutil.copy(os.path.join(ROOT, 'probes', 'vp_probe.rs'), os.path.join(scratch, 'tests', 'vp_probe.rs'))
         open(os.path.join(scratch, 'tests', 'vp_table.rs'), 'w').write(table_rs())
         env = dict(os.environ, CARGO_NET_OFFLINE='true', CARGO_TARGET_DIR=os.path.join(scratch, 'target'))
-        cmd = ['cargo', 'test', '--offline', '--test', 'vp_probe', '--']
-        if test_filter:
-            cmd.append(test_filter)
-        cmd += ['--test-threads=12']
-        pr = subprocess.run(cmd, cwd=scratch, env=env, capture_output=True, text=True, timeout=3000)
-        out = pr.stdout + '\n' + pr.stderr
+        def run(features):
+            cmd = ['cargo', 'test', '--offline'] + features + ['--test', 'vp_probe', '--']
+            if test_filter:
+                cmd.append(test_filter)
+            cmd += ['--test-threads=12']
+            pr = subprocess.run(cmd, cwd=scratch, env=env, capture_output=True, text=True, timeout=3000)
+            return pr.stdout + '\n' + pr.stderr
+        # with the ring backend compiled in (C18/C20 comparison tests); without it if that build is not possible here
+        out = run(['--features', 'ring-resolver'])
+        res['ring_backend_tests'] = True
+        if not re.search(r'(?m)^test \w+ \.\.\. (ok|FAILED)', out):
+            out = run([])
+            res['ring_backend_tests'] = False
         for l in out.split('\n'):
             m = re.match(r'PROBE-FINDING property=(C\d\d) \| (.*)$', l.strip())
             if m:
